@@ -152,7 +152,7 @@ Qed.
 Lemma init_participation_reads odds b mx owner amount fee b' idx effs :
   init_participation b mx owner amount fee = Some (b', idx, effs) -> NoDup odds -> bw odds b ->
   get_part b idx = None /\
-  exists p, bk_parts b' = bk_parts b ++ [p] /\ psig p = (idx, owner, amount - fee, amount - fee, 0, -1, 0, 0) /\
+  exists p, bk_parts b' = bk_parts b ++ [p] /\ psig p = (idx, owner, amount - fee, amount - fee, 0, -1, 0, 0) /\ p_fee p = fee /\
     (forall o i, i <> idx -> ge b' o i = ge b o i) /\
     (forall o, In o odds -> ge b' o idx = Some (new_expo idx o)) /\
     bk_hist b' = bk_hist b /\
@@ -193,7 +193,7 @@ Proof.
     - apply Z.eqb_eq in E. subst i. rewrite (find_app_r_none _ _ _ EG). cbn [find]. unfold part_is. cbn [p_idx p]. rewrite Z.eqb_refl. reflexivity.
     - destruct (find (part_is i) (bk_parts b)) as [q|] eqn:Ef; [apply find_app_l; exact Ef|]. rewrite (find_app_r_none _ _ _ Ef).
       cbn [find]. unfold part_is. cbn [p_idx p]. rewrite Z.eqb_sym, E. reflexivity. }
-  split; [exact EG|]. exists p. split; [change (bk_parts b3) with (bk_parts b2); rewrite A1; exact Hp1|]. split; [reflexivity|].
+  split; [exact EG|]. exists p. split; [change (bk_parts b3) with (bk_parts b2); rewrite A1; exact Hp1|]. split; [reflexivity|]. split; [reflexivity|].
   split; [|split; [|split; [|split]]].
   - intros o i Hne. rewrite Hge3. destruct (ge b o i); [reflexivity|]. apply Z.eqb_neq in Hne. rewrite Hne. reflexivity.
   - intros o Ho. rewrite Hge3, Hnoexp, Z.eqb_refl. assert (zmem o odds = true) as ->; [|reflexivity].
@@ -228,7 +228,7 @@ Lemma deposit_cov odds b mx owner amount fee b' idx effs bs :
   cinv odds b' bs /\ (forall bt, In bt bs -> refs b' (snd bt)).
 Proof.
   intros H Hnd Hpos W Hliq R CI.
-  destruct (init_participation_reads odds _ _ _ _ _ _ _ _ H Hnd W) as (Hnone & p & Hparts & Hsig & Hge & Hgei & Hh & Hgp & Hgpi).
+  destruct (init_participation_reads odds _ _ _ _ _ _ _ _ H Hnd W) as (Hnone & p & Hparts & Hsig & _ & Hge & Hgei & Hh & Hgp & Hgpi).
   unfold psig in Hsig. injection Hsig as S1 S2 S3 S4 S5 S6 S7 S8.
   destruct (sums_none_zero b idx bs R Hnone) as [Z1 Z2].
   assert (Hhist0 : hist_i b' idx = []).
